@@ -21,7 +21,8 @@
                                    open(context, O_RDONLY): ENOENT -> DoesNotExist; read id, close; own id -> Alive.
                                    open(owner_lock, O_WRONLY): ok -> F_GETLK, close, write-locked ? CleaningUp;
                                    ENOENT -> access(state): exists ? Err(CorruptedState) : CleaningUp.
-                                   open(state, O_WRONLY): ENOENT -> CleaningUp; F_GETLK, close: write-locked ? Alive : Dead.
+                                   open(state, O_WRONLY): ENOENT -> CleaningUp; F_GETLK: write-locked -> close, Alive;
+                                   else fstat (metadata): nlink == 0 ? CleaningUp : Dead; close.
      ProcessCleaner::new           state() must be Dead; open(context, O_RDONLY); [tracker]; open(owner_lock, O_WRONLY);
                                    open(state, O_WRONLY); F_GETLK(state): locked -> ProcessIsStillAlive;
                                    F_SETLK(owner_lock, F_WRLCK): ok -> owner of all three files;
@@ -92,7 +93,7 @@ Inductive pc :=
 | MOpenCtxR (cl : bool) | MReadCtx (cl : bool) (f : N) | MCloseCtxR (cl : bool) (f : N) (out : N)
 | MOpenOwner (cl : bool) | MGetlkOwner (cl : bool) (f : N) | MCloseOwner (cl : bool) (f : N) (out : N)
 | MAccessState (cl : bool) | MOpenState (cl : bool) | MGetlkState (cl : bool) (f : N) | MCloseState (cl : bool) (f : N) (out : N)
-| MFstatState (cl : bool) (f : N)               (* only in the candidate repair `nlink_check` *)
+| MFstatState (cl : bool) (f : N)               (* only with nlink_check (fix a8f7c5d) *)
 (* ProcessCleaner::new after state() = Dead *)
 | XOpenCtx | XOpenOwner (c : N) | XOpenState (c o : N) | XGetlkSt (c o s : N) | XSetlkOw (c o s : N) | XSetlkFstat (c o s : N).
 
@@ -128,9 +129,10 @@ Definition create_code (e : errno) : N :=
 
 Section Step.
 Variable priv : bool.     (* the processes run with CAP_DAC_OVERRIDE (root) *)
-(* false = the code as it is.  true = candidate repair of F3 explored by the check (NOT in /repo):
-   state() re-checks with fstat that an unlocked state file is still linked; nlink = 0 means the
-   owner is removing it in an orderly drop => CleaningUp instead of Dead *)
+(* true = process_state.rs as it is since fix a8f7c5d (F3): state() re-checks with fstat
+   (metadata().number_of_links()) that an unlocked state file is still linked; nlink = 0 means the
+   owner is removing it in an orderly drop => CleaningUp instead of Dead.  false = the code before
+   that repair (kept so that the former defect stays a checked statement: C07.c07_f3_before_repair) *)
 Variable nlink_check : bool.
 
 Definition T := option (fs * lst * list pev).
@@ -187,7 +189,7 @@ Definition raw_step (t : nat) (s : fs) (l : lst) : T :=
         else Some (s, set_all l p Idle (trk l) (gfd l) (cfd l), [ERet OP_CLEAN (clean_code v)])
       | None => Some (s, set_all l p (MOpenCtxW true) None (gfd l) (cfd l), [])
       end
-    | OExit :: p => Some (fs_crash t s, crash_l l, [ERet OP_EXIT 0])
+    | OExit :: p => Some (fs_crash t s, crash_l l, [ECrash])     (* _exit without dropping: the kernel closes everything *)
     end
 
   (* ---------------- ProcessGuardBuilder::create ---------------- *)
@@ -382,7 +384,7 @@ Definition raw_step (t : nat) (s : fs) (l : lst) : T :=
     let '(r, s') := fs_fstat t f s in
     match r with
     | FOk (m, nl, _) => go s' l (MCloseState cl f (if N.eqb nl 0 then VCleaning else VDead)) [ECall R_STATE KFstat (RStat m nl)]
-    | FErr er => go s' l (MCloseState cl f VErrOther) [ECall R_STATE KFstat (RErr er)]
+    | FErr er => go s' l (MCloseState cl f VDead) [ECall R_STATE KFstat (RErr er)]
     end
   | MCloseState cl f out =>
     let '(r, s') := fs_close t f s in
